@@ -13,6 +13,7 @@ func minimise(s *Scenario, test func(*Scenario) bool, maxTests int, deadline tim
 	tests := 0
 	try := func(c *Scenario) bool {
 		if tests >= maxTests || time.Now().After(deadline) {
+			tests = maxTests // every loop below ends on this
 			return false
 		}
 		tests++
@@ -170,6 +171,7 @@ func minimise(s *Scenario, test func(*Scenario) bool, maxTests int, deadline tim
 			func(r *ReaderScn) { r.Scribble = "" },
 			func(r *ReaderScn) { r.Rich = false },
 			func(r *ReaderScn) { r.Consumer = "" },
+			func(r *ReaderScn) { r.Std = "" },
 			func(r *ReaderScn) { r.Terminal = "separate" },
 			func(r *ReaderScn) { r.Fault.WithData = false },
 			func(r *ReaderScn) {
